@@ -180,6 +180,7 @@ type HSOptions struct {
 	EqualLoops bool     // pad every loop to the same length (consumers of a fan-out advance at equal speed)
 	NoFanout   bool
 	RAM        bool // sometimes give a processor a data memory (L 1..3): more ports on the processor, none used by the program
+	Thru       bool // sometimes bond an external input straight to a fresh external output as well (pass-through, fan-out of the input)
 }
 
 // RichOps lists further opcodes that both back-ends implement (C01's co-implemented table).
@@ -322,6 +323,10 @@ func HandshakeMachine(t *rapid.T, o HSOptions) BMSpec {
 			s.Outputs++
 			c.sinks++
 		}
+	}
+	if o.Thru && s.Inputs > 0 && !o.NoFanout && rapid.IntRange(0, 2).Draw(t, "thru") == 0 {
+		s.Bonds = append(s.Bonds, [2]string{fmt.Sprintf("o%d", s.Outputs), fmt.Sprintf("i%d", rapid.IntRange(0, s.Inputs-1).Draw(t, "thruin"))})
+		s.Outputs++
 	}
 	if o.EqualLoops {
 		max := 0
